@@ -920,7 +920,18 @@ func runC12(c *Ctx) {
 					if src == nil || i >= len(dc.Call.Call.Args) {
 						continue
 					}
-					if !dependsOnLoose(dc.translate(dc.Call.Call.Args[i]), src) {
+					arg := dc.Call.Call.Args[i]
+					derived := dependsOnLoose(dc.translate(arg), src)
+					if h := dc.Call.Parent(); !derived && h != fn {
+						// the call sits in a helper (setSourceBlocked(multicastIP, sourceIP, block)): derived there from a
+						// parameter of the helper that is bound to the entry point's argument
+						for _, q := range h.Params {
+							if dependsOnLoose(arg, q) && dependsOnLoose(dc.translate(q), src) {
+								derived = true
+							}
+						}
+					}
+					if !derived {
 						good = false
 						why = "the " + name + " handed to " + spec.helper + " is not derived from the " + name + " argument of " + spec.method + " (a shadowed or stale variable): the request names no source / another group, so the kernel drops or filters a different membership than the caller asked for"
 					}
